@@ -129,10 +129,11 @@ Proof.
       * inversion H; subst. exists [(DConn c, b)]. split; [reflexivity|apply sent_one_conn].
       * exact (IH _ _ _ _ _ _ _ _ _ H).
     + destruct (existsb _ (w_tcp_listeners w)).
-      * destruct (IH _ _ _ _ _ _ _ _ _ H) as (ext & E & Se). subst outs'.
-        exists ((DDial (tc_host cl) (tc_port cl) (w_next_conn w), []) :: ext).
-        rewrite <- app_assoc. split; [reflexivity|].
-        apply (sent_app b [_] ext); [apply sent_one_dial|exact Se].
+      * (* the round that dials also writes, on the connection it has just opened *)
+        inversion H; subst.
+        exists [(DDial (tc_host cl) (tc_port cl) (w_next_conn w), []); (DConn (w_next_conn w), b)].
+        split; [reflexivity|].
+        apply (sent_app b [_] [_]); [apply sent_one_dial|apply sent_one_conn].
       * inversion H; subst. exists []. rewrite app_nil_r. split; [reflexivity|apply sent_nil].
 Qed.
 
